@@ -453,6 +453,7 @@ void sim_reset_run_state()
   g.slots_used = 0;
   g.switch_log.clear();
   g.cores = 4;
+  g.affinity = 0;
   g.spurious = 0;
   g.clock_jumps = 0;
   g.step_cap = 200000;
@@ -639,6 +640,7 @@ void sim_set_fair(int on)
 void sim_phase(int phase) { g.phase = phase; }
 int sim_get_phase(void) { return g.phase; }
 void sim_set_cores(int n) { g.cores = n; }
+void sim_set_affinity(int n) { g.affinity = n; }
 void sim_set_spurious(int on) { g.spurious = on; }
 void sim_set_clock_jumps(int on) { g.clock_jumps = on; }
 void sim_set_step_cap(uint64_t cap) { g.step_cap = cap; }
